@@ -61,13 +61,25 @@ def _stack_index(db, chk, cg, rule="C13.R4-backward-attachment"):
         chk.ob(rule, "stack_index of a mapping row = position of the thread's stack in self.call_stacks", None, where, found="mapping columns not found")
         return
     pos = cols.index("stack_index")
-    rows = [t for t in ast.walk(f) if isinstance(t, ast.Tuple) and isinstance(t.ctx, ast.Load) and len(t.elts) == len(cols) and not any(isinstance(e, ast.Starred) for e in t.elts)]
+    rows = [t for t in ast.walk(f) if isinstance(t, (ast.Tuple, ast.List)) and isinstance(t.ctx, ast.Load) and len(t.elts) == len(cols) and not any(isinstance(e, ast.Starred) for e in t.elts)
+            and not all(isinstance(e, ast.Constant) for e in t.elts)]
+    from_end = len(cols) - pos
+    if not rows:          # a display with starred parts (`(*csi, label, index, root, 1)`) stored into the mapping: the column is addressed from the end
+        rows = [st_.value for st_ in ast.walk(f) if isinstance(st_, ast.Assign) and isinstance(st_.value, (ast.Tuple, ast.List)) and "self.mapping" in ast.unparse(st_.targets[0])
+                and any(isinstance(e_, ast.Starred) for e_ in st_.value.elts) and len(st_.value.elts) >= from_end and not any(isinstance(e_, ast.Starred) for e_ in st_.value.elts[-from_end:])]
     appends = [c for c in H.calls(f) if isinstance(c.func, ast.Attribute) and c.func.attr == "append" and H.is_self_attr(c.func.value, "call_stacks")]
     if len(rows) != 1 or len(appends) != 1:
         chk.ob(rule, "stack_index of a mapping row = position of the thread's stack in self.call_stacks", None, where, found={"row displays": len(rows), "appends to self.call_stacks": len(appends)})
         return
-    e = rows[0].elts[pos]
+    e = rows[0].elts[-from_end]
     after = H.before(appends[0], rows[0])
+    if isinstance(e, ast.Name):          # the position computed into a local first
+        ds = H.defs_of(f, e.id)
+        if len(ds) == 1:
+            holder = next((st_ for st_ in ast.walk(f) if isinstance(st_, (ast.Assign, ast.AnnAssign)) and st_.value is ds[0]), None)
+            e = ds[0]
+            if holder is not None:
+                after = H.before(appends[0], holder)
     txt = ast.unparse(e).replace(" ", "")
     good = ("len(self.call_stacks)-1" if after else "len(self.call_stacks)")
     m_len = H.match("len($$x) - $k", e) or H.match("len($$x)", e)
